@@ -33,7 +33,8 @@ ASSUMPTIONS = [
 def strategy(tier):
     return sched.sched_specs(quiet=True, adaptive=False, force_last=False,
                              precisions=(None, None, None, 1), state_cond=True,
-                             twin_ok=True, deep=tier == 'thorough')
+                             twin_ok=True, deep=tier == 'thorough',
+                             emit_steps=(1, 1, 1, 2, 2.5))
 
 
 def close(a, b, exact):
@@ -121,7 +122,10 @@ def run_case(spec):
                 if rec.cond is False and rec.token is not None:
                     res.fail('quiet_ran', '%s ran although its condition was '
                              'false at %r' % (name, rec.t))
-        # observable form
+        if spec.get('emit_step', 1) != 1:
+            res.label('emit_step>1')
+        # observable form (whatever the emit step: a row is stamped with the
+        # time of the state it shows)
         for seq, table, t_eng, data, _ in parsed['emits']:
             if table != 'history':
                 continue
